@@ -105,6 +105,8 @@ class World:
         self.sources: dict[str, Container] = {}
         self.with_sources = with_sources
         self._tmpfiles = 0
+        self.damaged: set[str] = set()     # keys whose loose copy the harness damaged and that were not re-added yet
+        self.dups: set[str] = set()        # keys with stray files in duplicates/ planted by the harness
 
     # -- handles -----------------------------------------------------------------------------------------------
     @property
@@ -171,12 +173,14 @@ class World:
                 if r != m.keys[op[1]]:
                     res.fail('return-key', f'add_object returned {r}, expected {m.keys[op[1]]}')
                 m.loose.add(m.keys[op[1]])
+                self.damaged.discard(m.keys[op[1]])
             elif kind == 'adds':
                 r = self.h.add_streamed_object(io.BytesIO(m.universe[op[1]]))
                 res.retval = r
                 if r != m.keys[op[1]]:
                     res.fail('return-key', f'add_streamed_object returned {r}, expected {m.keys[op[1]]}')
                 m.loose.add(m.keys[op[1]])
+                self.damaged.discard(m.keys[op[1]])
             elif kind == 'topack':
                 _, batch, compress, no_holes, twice = op
                 r = self.h.add_objects_to_pack([m.universe[i] for i in batch], compress=compress,
@@ -217,8 +221,20 @@ class World:
                 if per_pack:
                     m.loose -= newly
             elif kind == 'clean':
-                self.h.clean_storage(vacuum=op[1])
-                m.loose -= m.packed
+                orphan = [k for k in self.dups if k not in m.present()]
+                if orphan:
+                    # a stray duplicate of an object that does not exist: clean_storage is documented to refuse
+                    from disk_objectstore.exceptions import InconsistentContent
+                    try:
+                        self.h.clean_storage(vacuum=op[1])
+                        res.fail('clean-orphan-duplicate', 'clean_storage accepted a duplicate of a missing object')
+                    except InconsistentContent:
+                        pass
+                else:
+                    self.h.clean_storage(vacuum=op[1])
+                    m.loose -= m.packed
+                    self.damaged -= m.packed
+                self.dups = {n.partition('.')[0] for n in REAL['os.listdir'](os.path.join(self.root, 'duplicates'))}
             elif kind == 'repack':
                 self.h.repack(compress_mode=_MODES[op[1]])
             elif kind == 'repack_pack':
@@ -232,6 +248,8 @@ class World:
                     res.fail('delete-return', f'delete_objects returned {sorted(r)}, expected {exp}')
                 m.loose -= set(req)
                 m.packed -= set(req)
+                self.dups -= set(req)
+                self.damaged -= set(req)
             elif kind == 'loosen':
                 k = m.key(op[1])
                 if k in m.present():
@@ -278,6 +296,33 @@ class World:
                     pass
             elif kind == 'switch':
                 self.cur = op[1]
+            elif kind == 'damage':
+                # environment event: the loose copy of object op[1] is damaged (op[2]: 'overwrite' | 'truncate' | 'extend')
+                k = m.keys[op[1]]
+                pl = self.config['loose_prefix_len']
+                p = os.path.join(self.root, 'loose', k[:pl], k[pl:]) if pl else os.path.join(self.root, 'loose', k)
+                how = op[2] if len(op) > 2 else 'overwrite'
+                data = m.content[k]
+                new = {'overwrite': b'#' + data[1:] if data else b'#', 'truncate': data[:-1] if data else b'+', 'extend': data + b'+'}[how]
+                with REAL['open'](p, 'wb') as fh:
+                    fh.write(new)
+                self.damaged.add(k)
+            elif kind == 'dup':
+                # environment event: a stray duplicate file of object op[1] (as ObjectWriter._store_duplicate_copy leaves on Windows)
+                k = m.keys[op[1]]
+                self._tmpfiles += 1
+                with REAL['open'](os.path.join(self.root, 'duplicates', f'{k}.{self._tmpfiles:032x}'), 'wb') as fh:
+                    fh.write(m.content[k])
+                self.dups.add(k)
+            elif kind == 'on':
+                # ('on', handle index, inner op): apply the inner operation through the given handle
+                self.cur = op[1]
+                inner = self.apply(op[2])
+                res.retval, res.exc = inner.retval, inner.exc
+                if not inner.ok:
+                    res.fail(inner.clause, f'handle {op[1]}: {inner.detail}')
+            elif kind == 'q':
+                self._query(res, op[1], op[2] if len(op) > 2 else None)
             else:
                 raise ValueError(f'unknown operation {op!r}')
         except Exception as exc:  # pylint: disable=broad-except
@@ -286,10 +331,88 @@ class World:
         return res
 
 
+    def _query(self, res, qkind, idx):  # pylint: disable=too-many-branches
+        """A read-only view through the current handle, compared with the model (presence and bytes)."""
+        m = self.model
+        h = self.h
+        ref = m.mapping()
+        allk = list(m.keys) + [m.absent]
+        who = f'handle {self.cur} query {qkind}{"" if idx is None else idx}: '
+        if qkind == 'has':
+            got = h.has_objects(allk)
+            exp = [k in ref for k in allk]
+            if got != exp:
+                res.fail('q-has_objects', who + f'has_objects={got} expected {exp}')
+        elif qkind == 'get':
+            k = m.key(idx)
+            try:
+                b = h.get_object_content(k)
+                if k not in ref or b != ref[k]:
+                    res.fail('q-get_object_content', who + f'returned {b[:30]!r} for {"absent" if k not in ref else "stored"} key {k[:8]}')
+            except NotExistent:
+                if k in ref:
+                    res.fail('q-get_object_content', who + f'NotExistent for acknowledged key {k[:8]}')
+        elif qkind in ('bulk', 'bulkall'):
+            skip = qkind == 'bulk'
+            got = h.get_objects_content(allk, skip_if_missing=skip)
+            exp = dict(ref) if skip else {k: ref.get(k) for k in allk}
+            if got != exp:
+                res.fail('q-get_objects_content', who + f'skip_if_missing={skip}: keys {sorted(x[:6] for x in got)} '
+                                                        f'expected {sorted(x[:6] for x in exp)} (or wrong bytes)')
+        elif qkind == 'meta':
+            got = {}
+            for k, meta in h.get_objects_meta(allk):
+                got[k] = meta.size
+            exp = {k: len(v) for k, v in ref.items()}
+            if got != exp:
+                res.fail('q-get_objects_meta', who + f'sizes {got} expected {exp}')
+        elif qkind == 'meta1':
+            k = m.key(idx)
+            try:
+                meta = h.get_object_meta(k)
+                if k not in ref or meta.size != len(ref[k]):
+                    res.fail('q-get_object_meta', who + f'meta {meta} for key {k[:8]} (expected size {len(ref.get(k, b""))})')
+            except NotExistent:
+                if k in ref:
+                    res.fail('q-get_object_meta', who + f'NotExistent for acknowledged key {k[:8]}')
+        elif qkind == 'stream':
+            k = m.key(idx)
+            try:
+                with h.get_object_stream_and_meta(k) as (stream, meta):
+                    b = stream.read(4) + stream.read()
+                    if k not in ref or b != ref[k] or meta.size != len(b):
+                        res.fail('q-get_object_stream_and_meta', who + f'read {b[:30]!r} meta.size {meta.size} for key {k[:8]}')
+            except NotExistent:
+                if k in ref:
+                    res.fail('q-get_object_stream_and_meta', who + f'NotExistent for acknowledged key {k[:8]}')
+        elif qkind == 'streams':
+            seen = {}
+            with h.get_objects_stream_and_meta(allk) as trip:
+                for k, stream, meta in trip:
+                    seen[k] = (stream.read(), meta.size)
+            exp = {k: (v, len(v)) for k, v in ref.items()}
+            if seen != exp:
+                res.fail('q-get_objects_stream_and_meta', who + f'got keys {sorted(x[:6] for x in seen)} expected {sorted(x[:6] for x in exp)} (or wrong bytes/size)')
+        elif qkind == 'list':
+            listed = sorted(h.list_all_objects())
+            if listed != sorted(ref):
+                res.fail('q-list_all_objects', who + f'listed {[x[:6] for x in listed]} expected {sorted(x[:6] for x in ref)}')
+        elif qkind == 'count':
+            h.count_objects()       # recorded, not judged (C08 lists existence checks, reads, metadata and listings)
+        else:
+            raise ValueError(f'unknown query {qkind}')
+
+
 def op_fingerprint(op) -> dict:
     """Normalised description of an operation for known-finding matching."""
     kind = op[0]
+    if kind == 'on':
+        fp = op_fingerprint(op[2])
+        fp['handle'] = op[1]
+        return fp
     fp = {'op': kind}
+    if kind == 'q':
+        fp['query'] = op[1]
     if kind in ('topack', 'stopack'):
         fp.update(compress=op[2], no_holes=op[3], read_twice=op[4])
     elif kind == 'sotopack':
